@@ -6,6 +6,7 @@ import Driver.Ops.NDArray
 import Driver.Ops.XMap
 import Driver.Ops.Grp
 import Driver.Ops.Sec
+import Driver.Ops.Dis
 import Driver.Ops.Codec
 /-
 Line-protocol driver.  One request per line (`<op> <args…>`), one response line per request.
@@ -25,6 +26,7 @@ def handlers : List (String × (List String → String)) := [
   ("xmap", XMapOp.handle),
   ("grp", Grp.handle),
   ("sec", Sec.handle),
+  ("dis", Dis.handle),
   ("codec", Codec.handle)
 ]
 
